@@ -57,6 +57,53 @@ theorem run_refines_ordered_map (hc : c.Lawful) (he : EraseOrder c P) (ops : Lis
   have := run_spec hc he (SortedDeque.sinv_empty (c := c) (P := P) (α := α)) ops hv
   rwa [SortedDeque.abs_empty] at this
 
+/-- The reference's results are produced operation by operation: a prefix of a sequence the
+reference completes is completed too, with the corresponding prefix of the results. -/
+theorem runRef_take (c : Cmp α κ) (m : List α) (ops : List (Op α κ)) (k : Nat)
+    (rs : List (Ret α)) (m' : List α) (h : runRef c m ops = some (rs, m')) :
+    ∃ m'', runRef c m (ops.take k) = some (rs.take k, m'') := by
+  induction ops generalizing m k rs with
+  | nil =>
+    simp only [runRef, Option.some.injEq, Prod.mk.injEq] at h
+    obtain ⟨rfl, rfl⟩ := h
+    exact ⟨m, by simp [runRef]⟩
+  | cons o ops ih =>
+    cases k with
+    | zero => exact ⟨m, by simp [runRef]⟩
+    | succ k =>
+      simp only [runRef] at h
+      cases hs : stepRef c m o with
+      | none => rw [hs] at h; cases h
+      | some p =>
+        obtain ⟨r, m1⟩ := p
+        rw [hs] at h
+        simp only at h
+        cases hr : runRef c m1 ops with
+        | none => rw [hr] at h; cases h
+        | some q =>
+          obtain ⟨rs1, m2⟩ := q
+          rw [hr] at h
+          simp only [Option.some.injEq, Prod.mk.injEq] at h
+          obtain ⟨rfl, rfl⟩ := h
+          obtain ⟨m'', h2⟩ := ih m1 k rs1 hr
+          exact ⟨m'', by simp [runRef, hs, h2]⟩
+
+/-- **After every operation**, prefix explicit: if the reference ordered map runs `ops`
+without the specified panic, then for every `k` the real deque's model has executed the
+first `k` operations without any panic, has returned exactly the first `k` of the
+reference's results over the whole sequence, and is in a state satisfying the invariant
+whose abstraction is the reference's map at that point. -/
+theorem after_every_operation (hc : c.Lawful) (he : EraseOrder c P) (ops : List (Op α κ))
+    (hv : ∀ op ∈ ops, ValidOp c P op) (rs : List (Ret α)) (m : List α)
+    (h : runRef c [] ops = some (rs, m)) (k : Nat) :
+    ∃ s' mk, runRef c [] (ops.take k) = some (rs.take k, mk) ∧
+      run c SortedDeque.empty (ops.take k) = some (rs.take k, s') ∧ abs c s' = mk ∧ SInv c P s' := by
+  obtain ⟨mk, hk⟩ := runRef_take c [] ops k rs m h
+  have := run_refines_ordered_map hc he (ops.take k) (fun op hop => hv op (List.mem_of_mem_take hop))
+  rw [hk] at this
+  obtain ⟨s', h1, h2, h3⟩ := this
+  exact ⟨s', mk, hk, h1, h2, h3⟩
+
 /-- The same from `SortedDeque::new(container, marker)` for any container the caller is
 entitled to hand over: the items as pushed (`gp`: in play, live, strictly sorted), some of
 the inner ones possibly erased since, both ends live.  (`new` itself checks nothing.) -/
